@@ -32,6 +32,11 @@ def nested(ctx, aux, role):
                          and any(isinstance(x, ast.Continue) for x in ast.walk(n)) for n in ast.walk(f.node))
              and f.all_params != ['package']]
         c = [f for f in c if 'AGGREGATORS' in u(ctx.N(f).node)]
+        if len(c) > 1:
+            # several generators reach the index (one of them through a call to the indexer): the indexer is the one whose own
+            # body stores into it
+            own = [f for f in c if any(isinstance(n, ast.Call) and u(n.func).endswith('.set') for n in own_nodes(f.node))]
+            c = own or c
     elif role == 'target':
         ri = nested(ctx, aux, 'resource_iterator')
         idx = nested(ctx, aux, 'indexer')
@@ -43,15 +48,19 @@ def nested(ctx, aux, role):
                         c.append(t)
     elif role == 'lookup':
         tg = nested(ctx, aux, 'target')
-        c = []
-        for n in ast.walk(tg.node):
-            if isinstance(n, ast.Try):
-                for x in n.body:
-                    for call in ast.walk(x):
-                        if isinstance(call, ast.Call):
-                            for t in ctx.res.resolve_call(call):
-                                if isinstance(t, FuncInfo) and t.parent is aux and t not in c:
-                                    c.append(t)
+
+        def cands_in(tree):
+            out_ = []
+            for n in ast.walk(tree):
+                if isinstance(n, ast.Try):
+                    for x in n.body:
+                        for call in ast.walk(x):
+                            if isinstance(call, ast.Call):
+                                for t in ctx.res.resolve_call(call):
+                                    if isinstance(t, FuncInfo) and t.parent is aux and t not in out_:
+                                        out_.append(t)
+            return out_
+        c = cands_in(tg.node) or cands_in(ctx.N(tg, depth=1).node)      # ... or through the generators it delegates to
     else:
         raise AnalysisError('unknown role ' + role)
     if len(c) != 1:
